@@ -841,6 +841,16 @@ class Folder(object):
             for x in items:
                 acc = self.call(args[0], [acc, x], {}, n, env)
             return acc
+        if d in ('builtins.any', 'builtins.all') and len(args) == 1 and \
+                not kwargs:
+            if isinstance(args[0], Opaque):
+                return Opaque(d)
+            want = d == 'builtins.any'
+            for x in list(args[0]):
+                # truth of folded values (an instance may define __bool__)
+                if self.truth(x, n, env) is want:
+                    return want
+            return not want
         if d == 'builtins.next':
             if isinstance(args[0], Opaque):
                 return Opaque('next')
